@@ -26,8 +26,9 @@ type c01Case struct {
 func c01Expected(c c01Case) string {
 	var sb strings.Builder
 	L := len(c.In.Ref)
-	for _, name := range c.In.queryNames() {
-		q := projectQuery(c.In.recordsOf(name), L)
+	names, groups := c.In.groups()
+	for _, name := range names {
+		q := projectQuery(groups[name], L)
 		row := windowRow(q.multiAlignRow(c.Pad), c.Start, c.End, c.Pad)
 		sb.WriteString(">" + name + "\n" + wrapText(row, c.Wrap))
 	}
@@ -54,8 +55,9 @@ func checkC01(c c01Case, o *Obs) error {
 		}
 	}
 	L := len(c.In.Ref)
-	for _, n := range c.In.queryNames() {
-		rs := c.In.recordsOf(n)
+	gnames, gm := c.In.groups()
+	for _, n := range gnames {
+		rs := gm[n]
 		if len(rs) > 1 {
 			nt = true
 			o.LabelIf(projectQuery(rs, L).conflict, "conflicting-bases")
@@ -121,7 +123,7 @@ func genWrap(t *rapid.T, L int) int {
 }
 
 func samOptsFor(conflict bool) samGenOpts {
-	o := samGenOpts{maxRef: 60, maxQueries: 5, maxRecs: 3, allowConflict: conflict, allowNoise: true, iupacRef: true, hugeEvery: 60}
+	o := samGenOpts{maxRef: 60, maxQueries: 5, maxRecs: 3, allowConflict: conflict, allowNoise: true, iupacRef: true, hugeEvery: 60, manyEvery: 700}
 	if thorough() {
 		o.maxRef, o.maxQueries, o.maxRecs = 400, 6, 5
 	}
